@@ -36,8 +36,8 @@ For each change also write a DEMONSTRATION: a small standalone pytest file (demo
 
 ALREADY EXPLORED (do NOT repeat these or close variants of them; earlier rounds produced them):
 {ex}
-In particular do NOT produce: another cache / memoisation of a result; another `x or default` / truthiness test on a number; another value carried from one loop iteration to the next; another dropped unit conversion.
-Produce changes of a DIFFERENT nature: other functions / other clauses of the property. Prefer, where you can: (i) a change in the ORDER of two operations, or an operation moved across a branch / loop boundary, (ii) a boundary or off-by-one in an index, a slice, a range or a comparison that only matters at an edge, (iii) a wrong-but-plausible sibling (east/west, previous/next, min/max, first/last, input/output, per-channel/total) at ONE of several sites, (iv) a shallow copy / alias where a copy is needed (or state left on a shared object), (v) an exception path or an early return that skips an update.
+In particular do NOT produce: another cache / memoisation of a result; another `x or default` / truthiness test on a number; another value carried from one loop iteration to the next; another dropped unit conversion; another `break` / `continue` / early-return slip in a loop; another statement moved under a logging / verbose guard; another in-place mutation of a shared list through an alias; another operand typo in compare_reqs.
+Produce changes of a DIFFERENT nature: other functions / other clauses of the property. At least ONE of your two changes must live OUTSIDE the function(s) that obviously implement the property: in a helper, a utility, a parameter / loader class, a constructor or a data table that the property's code depends on (follow the call chain two or three levels down or up), so that the property breaks although its own code is untouched. Prefer, where you can: (i) a change in the ORDER of two operations, or an operation moved across a branch / loop boundary, (ii) a boundary or off-by-one in an index, a slice, a range or a comparison that only matters at an edge, (iii) a wrong-but-plausible sibling (east/west, previous/next, min/max, first/last, input/output, per-channel/total) at ONE of several sites, (iv) a shallow copy / alias where a copy is needed (or state left on a shared object), (v) an exception path or an early return that skips an update.
 IMPORTANT: never use `git stash` (the stash is shared between worktrees); use `git diff > file`, `git checkout -- gnpy`, `git apply file`.
 
 HOW TO RUN THINGS
